@@ -127,6 +127,13 @@ def make_pool(tier, rng):
     ob = add(lambda n: [A.Declare(V(n), A.obj(("a", A.lst(I(0)))))], {"a": [0]})
     add(lambda n: [A.Declare(V(n), A.Index(A.lst(V(ob)), I(0)))], {"a": [0]}, ident=ob)
     add(lambda n: [A.Declare(V(n), A.obj(("a", V(ob))))], {"a": {"a": [0]}})
+    # empty containers obtained by slicing / collecting (each must be a container of its own)
+    add(lambda n: [A.Declare(V(n), A.RangeIndex(A.lst(I(1)), I(0), I(0)))], [])
+    add(lambda n: [A.Declare(V(n), A.RangeIndex(A.lst(I(1)), I(1), I(1)))], [])
+    add(lambda n: [A.Declare(A.ListE([(V(n), False)], True), A.lst())], [])
+    add(lambda n: [A.Declare(A.ListE([(V("_"), False), (V(n), False)], True), A.lst(I(5)))], [])
+    add(lambda n: [A.Declare(A.ObjectE([A.Single(V(n), False, True)]), A.obj())], {})
+    add(lambda n: [A.Declare(A.ObjectE([A.Pair(S("a"), V("_")), A.Single(V(n), False, True)]), A.obj(("a", I(1))))], {})
     # an operand stored inside the other operand
     w1 = add(lambda n: [A.Declare(V(n), A.lst(A.lst()))], [[]])
     add(lambda n: [A.Declare(V(n), A.lst(V(w1)))], [[[]]])
